@@ -473,8 +473,11 @@ var (
 )
 
 // Given a time, determines the number of days in the month that time occurs in.
+// The length of a month does not depend on the time zone, so it is computed in UTC:
+// in t.Location() the last day of the month may not exist (Pacific/Kiritimati
+// skipped 1994-12-31) and time.Date would normalize into the next month.
 func daysInMonth(t time.Time) int {
-	return time.Date(t.Year(), t.Month()+1, 0, 12, 0, 0, 0, t.Location()).Day()
+	return time.Date(t.Year(), t.Month()+1, 0, 12, 0, 0, 0, time.UTC).Day()
 }
 
 func clamp(n, min, max int) int {
